@@ -517,7 +517,8 @@ def setup():
     rc, out, wall = coq_build(timeout=4 * 3600)
     print(out[-4000:])
     missing = []
-    for pid in sorted(PROPS):
+    claimed = sorted(p for p in PROPS if PROPS[p].get("claimed", True))
+    for pid in claimed:
         for v in glob.glob(os.path.join(COQ, "Properties", pid + ".v")) + \
                 glob.glob(os.path.join(COQ, "Properties", pid + "_*.v")) + \
                 glob.glob(os.path.join(COQ, pid, "*Check*.v")):
@@ -531,7 +532,9 @@ def setup():
     for pid, cfg in sorted(PROPS.items()):
         for name in harness_names(cfg):
             rc, out, _ = harness_build(name)
-            if rc != 0:
+            if rc != 0 and pid not in claimed:
+                print("note: harness %s of unclaimed %s does not build (work in progress)" % (name, pid))
+            elif rc != 0:
                 print(out[-4000:])
                 print("harness build failed for", pid, name)
                 return 1
